@@ -181,7 +181,13 @@ unsafe impl<T, N: ArrayLength> GenericSequence<T> for Box<GenericArray<T, N>> {
             let ptr: *mut GenericArray<MaybeUninit<T>, N> = if layout.size() == 0 {
                 ptr::NonNull::dangling().as_ptr()
             } else {
-                alloc::alloc::alloc(layout).cast()
+                let raw = alloc::alloc::alloc(layout);
+
+                if raw.is_null() {
+                    alloc::alloc::handle_alloc_error(layout);
+                }
+
+                raw.cast()
             };
 
             let mut builder = IntrusiveArrayBuilder::new(&mut *ptr);
